@@ -6,13 +6,19 @@ args = sys.argv[1:]
 rnd2 = "--round2" in args
 rnd3 = "--round3" in args
 rnd4 = "--round4" in args
-args = [a for a in args if a not in ("--round2", "--round3", "--round4")]
+rnd5 = "--round5" in args
+args = [a for a in args if a not in ("--round2", "--round3", "--round4", "--round5")]
 for pid in args:
-    src = f"/tmp/mut4/{pid}-out" if rnd4 else f"/tmp/mut3/{pid}-out" if rnd3 else (f"/tmp/mut2/{pid}-out" if rnd2 else f"/tmp/mut/{pid}-out")
+    src = f"/tmp/mut5/{pid}-out" if rnd5 else f"/tmp/mut4/{pid}-out" if rnd4 else f"/tmp/mut3/{pid}-out" if rnd3 else (f"/tmp/mut2/{pid}-out" if rnd2 else f"/tmp/mut/{pid}-out")
     for k in (1, 2, 3, 4):
         if not os.path.exists(f"{src}/m{k}.diff"):
             continue
         d = os.path.join(ROOT, "seeded", f"{pid}-m{k + (6 if rnd4 else 4 if rnd3 else (2 if rnd2 else 0))}")
+        if rnd5:  # next free index of this property
+            j = 1
+            while os.path.exists(os.path.join(ROOT, "seeded", f"{pid}-m{j}")):
+                j += 1
+            d = os.path.join(ROOT, "seeded", f"{pid}-m{j}")
         os.makedirs(d, exist_ok=True)
         shutil.copy(f"{src}/m{k}.diff", f"{d}/patch.diff")
         shutil.copy(f"{src}/m{k}_demo.py", f"{d}/demo.py")
